@@ -221,6 +221,10 @@ class KeptChannels(dict):
         pass
 
 
+def _npint(name, v):
+    return v if v is None else getattr(np, name)(v)
+
+
 def do_op(tf, w, op):
     """Run one direct read op; returns the raw library result (exceptions propagate)."""
     c = chan(tf, w, op['ch'])
@@ -234,8 +238,13 @@ def do_op(tf, w, op):
     if kind == 'read_all_unscaled':
         return c.read_data(scaled=False)
     if kind == 'read_data':
+        if op.get('np'):
+            # positions computed with numpy (searchsorted, argmax, a column of an index table) are numpy integers
+            return c.read_data(_npint(op['np'], op['offset']), _npint(op['np'], op['length']), op.get('scaled', True))
         return c.read_data(op['offset'], op['length'], op.get('scaled', True))
     if kind == 'slice':
+        if op.get('np'):
+            return c[_npint(op['np'], op['start']):_npint(op['np'], op['stop']):_npint(op['np'], op['step'])]
         return c[op['start']:op['stop']:op['step']]
     if kind == 'index':
         if op.get('np'):
